@@ -31,9 +31,12 @@ def _sd_bytes(module):
 
 
 def _state(module):
-    """(parameters, buffers) of the layer itself as raw bytes."""
-    return ({k: core.tbytes(v) for k, v in module.named_parameters(recurse=True)},
-            {k: core.tbytes(v) for k, v in module.named_buffers(recurse=True)})
+    """(trainable parameters, everything else the state dict holds) of the layer as raw bytes.  Non-persistent
+    buffers are volatile by design (scratch space, last-batch diagnostics) and are not part of the life-cycle."""
+    params = {k for k, _ in module.named_parameters(recurse=True)}
+    sd = module.state_dict()
+    return ({k: core.tbytes(v) for k, v in sd.items() if k in params},
+            {k: core.tbytes(v) for k, v in sd.items() if k not in params})
 
 
 def _per_feature(a):
@@ -671,7 +674,10 @@ class C14World(World):
             if judged and not self._refusal_expected(direction):
                 raise Violation("normalisation_call_failed", "%s raised %s: %s" % (direction, type(e).__name__, str(e)[:200]))
             return True
-        log.add("ok", *res)
+        if self._is_flow() and direction == "inverse":
+            log.add("ok", "sampled")      # sampled values stay out of the event log: a library may sample from a generator of its own
+        else:
+            log.add("ok", *res)
         return False
 
     def _refusal_expected(self, direction):
